@@ -954,3 +954,164 @@ func runObjectCompletion(rr *RuleRun) {
 		}
 	}
 }
+
+// ---------------------------------------------------------------------------
+// C17.path-arithmetic
+
+func init() {
+	register(&Rule{
+		ID: "C17.path-arithmetic", Prop: "C17", Also: []string{"C15", "C16", "C18"}, Floor: 20, Controls: 1,
+		Doc: "an expression P[len(P)-1] or P[:len(P)-1] on a path is evaluated only for a P that was extended by append on the way (the variable indexed is the one that was appended to): for the caller's own, possibly empty, path the bound is -1 and the expression panics while reporting an error",
+		Run: runPathArithmetic,
+	})
+}
+
+func runPathArithmetic(rr *RuleRun) {
+	c := rr.Ctx
+	eachFuncBody(c, []string{"cty/json", "cty/msgpack", "cty/gocty", "cty/convert", "cty"}, func(pkg string, fd *ast.FuncDecl, body *ast.BlockStmt) {
+		info := c.Info(pkg)
+		type use struct {
+			at  ast.Node
+			obj types.Object
+		}
+		var uses []use
+		isLenMinus1 := func(e ast.Expr, p types.Object) bool {
+			be, ok := ast.Unparen(e).(*ast.BinaryExpr)
+			if !ok || be.Op != token.SUB {
+				return false
+			}
+			if v, ok := constInt(info, be.Y); !ok || v != 1 {
+				return false
+			}
+			call, ok := ast.Unparen(be.X).(*ast.CallExpr)
+			return ok && isBuiltin(info, call, "len") && len(call.Args) == 1 && objOf(info, call.Args[0]) == p
+		}
+		inspectNoLit(body, func(n ast.Node) bool {
+			switch x := n.(type) {
+			case *ast.IndexExpr:
+				if p := objOf(info, x.X); p != nil && namedTypeNoPtr(p.Type()) == "cty.Path" && isLenMinus1(x.Index, p) {
+					uses = append(uses, use{x, p})
+				}
+			case *ast.SliceExpr:
+				if p := objOf(info, x.X); p != nil && namedTypeNoPtr(p.Type()) == "cty.Path" && x.High != nil && isLenMinus1(x.High, p) {
+					uses = append(uses, use{x, p})
+				}
+			}
+			return true
+		})
+		if len(uses) == 0 {
+			return
+		}
+		g := c.CFG(body, info)
+		byObj := map[types.Object]*FactResult{}
+		for _, u := range uses {
+			fr, ok := byObj[u.obj]
+			if !ok {
+				p := u.obj
+				spec := &FactSpec{
+					Atom: func(cond ast.Expr, truth bool) []Fact {
+						// len(P) == 0 false, len(P) > 0 / != 0 true: the path is not empty
+						be, ok := ast.Unparen(cond).(*ast.BinaryExpr)
+						if !ok {
+							return nil
+						}
+						call, ok := ast.Unparen(be.X).(*ast.CallExpr)
+						if !ok || !isBuiltin(info, call, "len") || len(call.Args) != 1 || objOf(info, call.Args[0]) != p {
+							return nil
+						}
+						if v, ok := constInt(info, be.Y); ok && v == 0 {
+							if (be.Op == token.EQL && !truth) || (be.Op == token.GTR && truth) {
+								return []Fact{{"extended", objKey(p)}}
+							}
+						}
+						return nil
+					},
+					Effects: func(n ast.Node) []Effect {
+						var lhs []ast.Expr
+						var rhs []ast.Expr
+						// storing into an element does not shorten the path
+						if as, ok := n.(*ast.AssignStmt); ok {
+							for _, l := range as.Lhs {
+								if ix, ok := ast.Unparen(l).(*ast.IndexExpr); ok && objOf(info, ix.X) == p {
+									return []Effect{{Keep: &Fact{"extended", objKey(p)}}}
+								}
+							}
+						}
+						switch s := n.(type) {
+						case *ast.AssignStmt:
+							lhs, rhs = s.Lhs, s.Rhs
+						case *ast.ValueSpec:
+							for _, nm := range s.Names {
+								lhs = append(lhs, nm)
+							}
+							rhs = s.Values
+						default:
+							return nil
+						}
+						for i := range lhs {
+							if i < len(rhs) && objOf(info, lhs[i]) == p {
+								if call, ok := ast.Unparen(rhs[i]).(*ast.CallExpr); ok && isBuiltin(info, call, "append") && len(call.Args) >= 2 {
+									return []Effect{{Assert: &Fact{"extended", objKey(p)}}}
+								}
+							}
+						}
+						return nil
+					},
+				}
+				fr = g.MustFacts(spec)
+				byObj[u.obj] = fr
+			}
+			key := fmt.Sprintf("%s.%s/%s", pkg, declName(fd), trunc(exprStr(u.at.(ast.Expr)), 30))
+			fs, ok := fr.At(u.at)
+			if !ok {
+				continue
+			}
+			// the definition itself may be the append: path := append(path, nil) defines a new object
+			extended := fs.has("extended", objKey(u.obj))
+			if !extended {
+				if st, idx, rhs := findDefine(info, body, u.obj); st != nil && idx < len(rhs) {
+					if call, ok := ast.Unparen(rhs[idx]).(*ast.CallExpr); ok && isBuiltin(info, call, "append") && len(call.Args) >= 2 && g.Dominates(st, u.at) {
+						extended = true
+					}
+				}
+			}
+			if !extended && (u.obj.Pos() < body.Pos() || u.obj.Pos() > body.End()) {
+				// a captured variable: look at the enclosing function at the point where the closure is created
+				if fl, ok := c.Parent(body).(*ast.FuncLit); ok {
+					if outer := enclosingFuncBody(c, fl); outer != nil {
+						og := c.CFG(outer, info)
+						p := u.obj
+						ospec := &FactSpec{
+							Atom: func(ast.Expr, bool) []Fact { return nil },
+							Effects: func(n ast.Node) []Effect {
+								as, ok := n.(*ast.AssignStmt)
+								if !ok {
+									return nil
+								}
+								for i, l := range as.Lhs {
+									if ix, ok := ast.Unparen(l).(*ast.IndexExpr); ok && objOf(info, ix.X) == p {
+										return []Effect{{Keep: &Fact{"extended", objKey(p)}}}
+									}
+									if i < len(as.Rhs) && objOf(info, l) == p {
+										if call, ok := ast.Unparen(as.Rhs[i]).(*ast.CallExpr); ok && isBuiltin(info, call, "append") && len(call.Args) >= 2 {
+											return []Effect{{Assert: &Fact{"extended", objKey(p)}}}
+										}
+									}
+								}
+								return nil
+							},
+						}
+						if ofs, ok := og.MustFacts(ospec).At(fl); ok && ofs.has("extended", objKey(p)) {
+							extended = true
+						}
+					}
+				}
+			}
+			if extended {
+				rr.OK(key, u.at.Pos(), "the indexed path was extended by append on every path to this point")
+			} else {
+				rr.Violation(key, u.at.Pos(), fmt.Sprintf("%s is evaluated on a path variable that was not extended by append on the way (it is the caller's path, which is empty at the top level): the bound is -1 and the expression panics", exprStr(u.at.(ast.Expr))))
+			}
+		}
+	})
+}
